@@ -1,7 +1,10 @@
-import Qryn.Tempo.Search
+import Qryn.Tempo.SearchParse
+import Qryn.Read.ConfineSearch
+import Qryn.Read.Tables
 import Driver.C07
+import Driver.C11
 namespace Driver.C13Tempo
-open Qryn Qryn.Sql Qryn.Tempo
+open Qryn Qryn.Sql Qryn.Tempo Qryn.Confine
 
 def tagOp? : String → Option TagOp
   | "eq" => some .eq | "ne" => some .ne | "re" => some .re | "nre" => some .nre | _ => none
@@ -34,12 +37,52 @@ def ver? : List String → Option (VersionInfo × List String)
     some (versionInfo rs ts, rest)
   | _ => none
 
+/-- the hypotheses of `tempo_search_confined` on the table classification, for `lokiCfg` -/
+def searchOk (r : SearchReq) : Bool :=
+  lokiCfg.kind r.tracesTable == .data && lokiCfg.kind r.tracesDistTable == .data && lokiCfg.kind (attrsTable r) == .index
+
+def spanRow? (s : String) : Option Row :=
+  match s.splitOn ":" with
+  | [t, sp, svc, nm, ts, du] => do
+    some [("trace_id", .str (← ofHex t)), ("span_id", .str (← ofHex sp)), ("service_name", .str (← ofHex svc)),
+          ("name", .str (← ofHex nm)), ("timestamp_ns", .int (← ts.toInt?)), ("duration_ns", .int (← du.toInt?))]
+  | _ => none
+
+def attrRow? (s : String) : Option Row :=
+  match s.splitOn ":" with
+  | [d, k, v, t, sp, ts, du] => do
+    some [("date", .str (← ofHex d)), ("key", .str (← ofHex k)), ("val", .str (← ofHex v)), ("trace_id", .str (← ofHex t)),
+          ("span_id", .str (← ofHex sp)), ("timestamp_ns", .int (← ts.toInt?)), ("duration", .int (← du.toInt?))]
+  | _ => none
+
+def valHex : Val → String
+  | .str s => hexOut s
+  | .int i => toString i
+  | _ => "?"
+
+def rowOut (r : Row) : String := valHex (r.get "trace_id") ++ ":" ++ valHex (r.get "span_id") ++ ":" ++ valHex (r.get "timestamp_ns")
+
+def rowsOut (t : Table) : String := if t.isEmpty then "-" else ",".intercalate (t.map rowOut)
+
 def handle : List String → Option String
+  -- the model's statement, the verdict of `searchConfined` on it (true by `tempo_search_confined` when 0 < from, to), whether
+  -- `lokiCfg` meets the theorem's hypotheses, and whether the text reads back as the plan
   | "c13tsearch" :: args => do
     let (r, rest) ← req? args
     let (v, rest') ← ver? rest
     if !rest'.isEmpty then none
-    some (hexOut (planSearch r v).render)
+    let st := planSearch r v
+    let text := st.render
+    some s!"{hexOut text} {searchConfined lokiCfg (winSearch r) st || !(decide (0 < r.fromNs) && decide (0 < r.toNs))} {searchOk r} {(Parse.parseSearch text).isSome}"
+  -- the statement the REAL code sent: read back (byte-equal re-rendering or `unparsed`), judged structurally for the window,
+  -- and executed on a span / index database
+  | ["c13tjudge", fromNs, toNs, text, spans, attrs] => do
+    let w : Window := ⟨← fromNs.toInt?, ← toNs.toInt?, 0, false, 0⟩
+    let db : SearchDb := ⟨← Driver.C07.list? spanRow? spans, ← Driver.C07.list? attrRow? attrs⟩
+    match Parse.parseSearch (← ofHex text) with
+    | none => some "unparsed"
+    | some st =>
+      some s!"parsed {searchConfined lokiCfg w st} table={lokiCfg.kind st.table == .data} dates={st.idxs.all (idxDatesOk lokiCfg w)} span={spanBounded w st} idx={st.idxs.any (idxBounded w)} {rowsOut (searchRows Driver.C11.orc db st)}"
   | ["c13tver", rows, tables, ver, fromNs] => do
     let (v, _) ← ver? [rows, tables]
     some (toString (isVersionSupported v (← ofHex ver) (← fromNs.toInt?)))
